@@ -1,8 +1,10 @@
 P = dict(
     bin="egv_c05", trace="Trace_C05", level="model_checking",
-    mc=[],
+    mc=[dict(module="MC_C05", quick_cfg="MC_C05.cfg", thorough_cfg="MC_C05_thorough.cfg", workers=8),
+        dict(module="MC_C05", quick_cfg="MC_C05_control.cfg", expect_violation=True, coverage=False, workers=8)],
     required_events=["shape"],
-    level_text="TLC validates, for every recorded shape, that the points() sequence is exactly the row-major enumeration of the "
+    level_text="MC_C05 steps the transcribed points() machines of Circle and Ellipse against the abstract row-major enumerator of "
+               "the transcribed contains() (control: the snapshot's stop-at-empty-row behaviour is refuted); TLC validates, for every recorded shape, that the points() sequence is exactly the row-major enumeration of the "
                "contains() set probed on the bounding box plus a margin, over an exhaustive small domain of all six primitives "
                "and seeded larger ones",
     level_note="trusted: run encoding of the recorder, P_C05; contains() is probed on bbox+2 and 12 far points, not on the whole plane",
